@@ -196,6 +196,112 @@ Proof.
   intros N. apply C20_union_equation_satisfied; auto.
 Qed.
 
+(* NAME-PERMUTING dictionaries are covered: kid_wf / pkid_wf do not ask the child's names to differ
+   from the parent's.  The words b^n with p = number of a's (variable 1), q = number of b's
+   (variable 2), and the same words as a class that calls these statistics the other way round
+   (p = number of b's, q = number of a's): extra_parameters {p: q, q: p}.  The emitted equation is
+   F_0(x,p,q) = 0 + F_1(x,q,p) (simultaneous substitution) and it is satisfied at every order; the
+   equation F_0(x,p,q) = 0 + F_1(x,p,p), which replacing p := q and then q := p one after the other
+   would give, is not (coefficient of x*q). *)
+Definition sw_pars (l : Z) : list Z := match l with 0 => [1; 2] | 1 => [1; 2] | _ => [] end.
+Definition sw_T (l n : Z) : list (list Z * Z) :=
+  match l with 0 => [([0; n], 1)] | 1 => [([n; 0], 1)] | _ => [] end.
+Definition sw_kids : list (Z * list (Z * Z)) := [(1, [(1, 2); (2, 1)])].
+
+Example C20_ex_union_swapped_names :
+  rule_equation sw_pars (RUnion (mkorule 0 (map fst sw_kids) (map snd sw_kids))) =
+    Ok (Fun 0 [Var 0; Var 1; Var 2]) (Add (Const 0) (Fun 1 [Var 0; Var 2; Var 1])) /\
+  class_wf sw_pars sw_T 0 /\ Forall (kid_wf sw_pars sw_T (sw_pars 0)) sw_kids /\
+  union_genuine sw_pars sw_T 0 sw_kids /\
+  (forall N, satisfied sw_pars sw_T (fun _ => []) [0; 1; 2] N (RUnion (mkorule 0 (map fst sw_kids) (map snd sw_kids)))) /\
+  ~ holds (SN sw_T 1) (fun _ => []) [0; 1; 2] 1
+      (Fun 0 [Var 0; Var 1; Var 2]) (Add (Const 0) (Fun 1 [Var 0; Var 1; Var 1])).
+Proof.
+  assert (forall l, l = 0 \/ l = 1 -> class_wf sw_pars sw_T l) as W.
+  { intros l Hl. split; [|split].
+    - destruct Hl; subst l; simpl; repeat constructor; simpl; intuition discriminate.
+    - destruct Hl; subst l; simpl; intuition discriminate.
+    - destruct Hl; subst l; intros n t [<-|[]]; reflexivity. }
+  assert (Forall (kid_wf sw_pars sw_T (sw_pars 0)) sw_kids) as Wk.
+  { constructor; [|constructor]. unfold kid_wf. cbn [fst snd map].
+    split; [|split; [|split; [|split]]].
+    - apply W; auto.
+    - repeat constructor; simpl; intuition discriminate.
+    - intros x [<-|[<-|[]]]; simpl; auto.
+    - intros x [<-|[<-|[]]]; simpl; auto.
+    - intros cv [<-|[<-|[]]]; reflexivity. }
+  assert (union_genuine sw_pars sw_T 0 sw_kids) as G.
+  { intros n Hn e. unfold cnt. simpl. unfold aget. simpl. lia. }
+  split; [reflexivity|]. split; [apply W; auto|]. split; [exact Wk|]. split; [exact G|].
+  split.
+  - intros N. apply C20_union_equation_satisfied; auto.
+  - intros [p [q [Hp [Hq H]]]]. vm_compute in Hp, Hq.
+    injection Hp as <-. injection Hq as <-.
+    specialize (H (fun u => if u =? 1 then 0 else if u <=? 2 then 1 else 0)).
+    vm_compute in H. assert (1 = 0) as E by (apply H; split; discriminate). discriminate E.
+Qed.
+
+(* a product whose first factor numbers its statistics one lower than the parent: the word ab with
+   k_1 = number of a's (variable 2), k_2 = number of b's (variable 3) = the word a with k_0, k_1
+   (variables 1, 2) x the word b with k_1, k_2; extra_parameters ({k_1: k_0, k_2: k_1}, identity).
+   Emitted: F_0(x,k_1,k_2) = 1 * F_1(x,k_1,k_2) * F_2(x,k_1,k_2), satisfied; with k_0 := k_1 and then
+   k_1 := k_2 applied one after the other the first factor would be F_1(x,k_2,k_2): not satisfied. *)
+Definition sh_pars (l : Z) : list Z := match l with 0 => [2; 3] | 1 => [1; 2] | 2 => [2; 3] | _ => [] end.
+Definition sh_T (l n : Z) : list (list Z * Z) :=
+  match l, n with
+  | 0, 2 => [([1; 1], 1)]
+  | 1, 1 => [([1; 0], 1)]
+  | 2, 1 => [([0; 1], 1)]
+  | _, _ => []
+  end.
+Definition sh_kids : list (Z * list (Z * Z)) := [(1, [(2, 1); (3, 2)]); (2, [(2, 2); (3, 3)])].
+Definition sh_V : list Z := [0; 1; 2; 3].
+
+Example C20_ex_product_shifted_names :
+  rule_equation sh_pars (RProduct (mkorule 0 (map fst sh_kids) (map snd sh_kids))) =
+    Ok (Fun 0 [Var 0; Var 2; Var 3])
+       (Mul (Mul (Const 1) (Fun 1 [Var 0; Var 2; Var 3])) (Fun 2 [Var 0; Var 2; Var 3])) /\
+  class_wf sh_pars sh_T 0 /\ Forall (pkid_wf sh_pars sh_T (sh_pars 0)) sh_kids /\
+  product_genuine sh_pars sh_T sh_V 0 sh_kids 2 /\
+  satisfied sh_pars sh_T (fun _ => []) sh_V 2 (RProduct (mkorule 0 (map fst sh_kids) (map snd sh_kids))) /\
+  ~ holds (SN sh_T 2) (fun _ => []) sh_V 2 (Fun 0 [Var 0; Var 2; Var 3])
+      (Mul (Mul (Const 1) (Fun 1 [Var 0; Var 3; Var 3])) (Fun 2 [Var 0; Var 2; Var 3])).
+Proof.
+  assert (forall l n t, In t (sh_T l n) -> length (fst t) = length (sh_pars l)) as Tab.
+  { intros l n t. destruct l as [|[[p|p|]|[p|p|]|]|p]; simpl; try tauto;
+      destruct n as [|[[p'|p'|]|[p'|p'|]|]|p']; simpl; try tauto; intros [<-|[]]; reflexivity. }
+  assert (forall l, l = 0 \/ l = 1 \/ l = 2 -> class_wf sh_pars sh_T l) as W.
+  { intros l Hl. split; [|split].
+    - destruct Hl as [Hl|[Hl|Hl]]; subst l; simpl; repeat constructor; simpl; intuition discriminate.
+    - destruct Hl as [Hl|[Hl|Hl]]; subst l; simpl; intuition discriminate.
+    - intros n t. apply Tab. }
+  assert (Forall (pkid_wf sh_pars sh_T (sh_pars 0)) sh_kids) as Wk.
+  { constructor; [|constructor; [|constructor]]; unfold pkid_wf, kid_wf; cbn [fst snd map].
+    - split; [split; [|split; [|split; [|split]]]|].
+      + apply W; auto.
+      + repeat constructor; simpl; intuition discriminate.
+      + intros x [<-|[<-|[]]]; simpl; auto.
+      + intros x [<-|[<-|[]]]; simpl; auto.
+      + intros cv [<-|[<-|[]]]; reflexivity.
+      + repeat constructor; simpl; intuition discriminate.
+    - split; [split; [|split; [|split; [|split]]]|].
+      + apply W; auto.
+      + repeat constructor; simpl; intuition discriminate.
+      + intros x [<-|[<-|[]]]; simpl; auto.
+      + intros x [<-|[<-|[]]]; simpl; auto.
+      + intros cv [<-|[<-|[]]]; reflexivity.
+      + repeat constructor; simpl; intuition discriminate. }
+  assert (product_genuine sh_pars sh_T sh_V 0 sh_kids 2) as G.
+  { intros m _. vm_compute. reflexivity. }
+  split; [reflexivity|]. split; [apply W; auto|]. split; [exact Wk|]. split; [exact G|].
+  split.
+  - apply C20_product_equation_satisfied; auto.
+  - intros [p [q [Hp [Hq H]]]]. vm_compute in Hp, Hq.
+    injection Hp as <-. injection Hq as <-.
+    specialize (H (fun u => if u =? 0 then 2 else if u =? 2 then 1 else if u =? 3 then 1 else 0)).
+    vm_compute in H. assert (1 = 0) as E by (apply H; split; discriminate). discriminate E.
+Qed.
+
 (* a productive univariate specification and its unique solution: L = 1 + x*L
    (class 0 = union of the empty word 1 and the product 2 = atom 3 x class 0) *)
 Definition ex_spec (c : nat) : option urule :=
@@ -245,3 +351,5 @@ Print Assumptions C20_verified_equation_satisfied.
 Print Assumptions C20_unique_series.
 Print Assumptions C20_unique_needs_minimum_sizes_refuted.
 Print Assumptions C20_product_collision_refuted.
+Print Assumptions C20_ex_union_swapped_names.
+Print Assumptions C20_ex_product_shifted_names.
